@@ -663,7 +663,9 @@ pub mod inner {
         /// If `row >= self.height()`.
         #[inline]
         fn index(&self, i: usize) -> &[T] {
-            let idx = self.to_index_strict(0, i as u32);
+            // Out of range row numbers must not wrap around
+            let row = u32::try_from(i).unwrap_or(u32::MAX);
+            let idx = self.to_index_strict(0, row);
             let w = self.dims.0 as usize;
             &self.data[idx..][..w]
         }
@@ -682,7 +684,9 @@ pub mod inner {
         /// If `row >= self.height()`.
         #[inline]
         fn index_mut(&mut self, row: usize) -> &mut [T] {
-            let idx = self.to_index_strict(0, row as u32);
+            // Out of range row numbers must not wrap around
+            let row = u32::try_from(row).unwrap_or(u32::MAX);
+            let idx = self.to_index_strict(0, row);
             let w = self.dims.0 as usize;
             &mut self.data[idx..][..w]
         }
